@@ -162,8 +162,13 @@ def _splice(caller, bb, callee, j=None, counter=None):
     poff = len(caller.get("promoted") or [])
     nargs = body["arg_count"]
 
+    rvo = (not t["dest"]["proj"]) and t.get("target") is not None   # the callee writes its result straight into the destination
+
     def reloc(pl):
-        pl["local"] += loff
+        if rvo and pl["local"] == 0:
+            pl["local"] = t["dest"]["local"]
+        else:
+            pl["local"] += loff
         for e in pl["proj"]:
             if e.get("k") == "index" and isinstance(e.get("local"), int):
                 e["local"] += loff
@@ -185,6 +190,8 @@ def _splice(caller, bb, callee, j=None, counter=None):
         if b["term"]["k"] == "return" and not b["cleanup"]:
             if target is None:
                 b["term"] = {"k": "unreachable", "span": b["term"]["span"]}
+            elif rvo:
+                b["term"] = {"k": "goto", "target": target, "span": b["term"]["span"], "inlined_return": callee["key"]}
             else:
                 rty = body["locals"][0]["ty"]
                 b["stmts"].append({"k": "assign", "place": copy.deepcopy(dest),
@@ -381,19 +388,53 @@ def alias_moved(j, known, sigs):
     if not missing:
         return report
     targets = {}   # missing old key -> present key that plays its role
+
+    def sig2(x):
+        return (tuple(x[1]), x[2])   # a free function may have become a method of its argument's type: the kind is not compared
+
+    def callers_now(n):
+        out = set()
+        for g in j["fns"]:
+            for b in (g.get("body") or {}).get("blocks", []):
+                if b["term"]["k"] == "call" and _callee_key(b["term"]) == n:
+                    k = g["key"]
+                    while k not in present and "::{closure" in k:
+                        k = k.rsplit("::{closure", 1)[0]
+                    out.add(k)
+        return out
+
+    def callers_reviewed(o):
+        return {k for k, e in sigs.items() if o in (e.get("callees") or [])}
+
     for o in missing:
-        so = (sigs[o]["kind"], tuple(sigs[o]["inputs"]), sigs[o]["output"])
+        so = sig2((sigs[o]["kind"], tuple(sigs[o]["inputs"]), sigs[o]["output"]))
         leaf = o.rsplit("::", 1)[-1]
         parent = o.rsplit("::", 1)[0] if "::" in o else ""
-        moved = [k for k, f in new.items() if k.rsplit("::", 1)[-1] == leaf and _sig(f) == so]
-        renamed = [k for k, f in new.items() if (k.rsplit("::", 1)[0] if "::" in k else "") == parent and _sig(f) == so]
-        dedup = [k for k, f in present.items() if k in known and k != o and k.rsplit("::", 1)[-1] == leaf and _sig(f) == so]
+        moved = [k for k, f in new.items() if k.rsplit("::", 1)[-1] == leaf and sig2(_sig(f)) == so]
+        renamed = [k for k, f in new.items() if (k.rsplit("::", 1)[0] if "::" in k else "") == parent and sig2(_sig(f)) == so]
+        dedup = [k for k, f in present.items() if k in known and k != o and k.rsplit("::", 1)[-1] == leaf and sig2(_sig(f)) == so]
+        if len(renamed) > 1 and not moved:
+            # several renamed siblings with one signature (find_min / find_max): the one the reviewed callers now call
+            was = callers_reviewed(o)
+            score = {k: len(was & callers_now(k)) for k in renamed}
+            best = max(score.values()) if score else 0
+            top = [k for k, v in score.items() if v == best and best > 0]
+            renamed = top if len(top) == 1 else renamed
         if len(moved) == 1:
             targets[o] = (moved[0], "moved")
         elif not moved and len(renamed) == 1:
             targets[o] = (renamed[0], "renamed")
         elif not moved and not renamed and len(dedup) == 1:
             targets[o] = (dedup[0], "de-duplicated")
+    # two reviewed functions must not claim the same renamed function
+    claimed = {}
+    for o, (n, how) in list(targets.items()):
+        if how == "renamed":
+            claimed.setdefault(n, []).append(o)
+    for n, olds in claimed.items():
+        if len(olds) > 1:
+            for o in olds:
+                del targets[o]
     if not targets:
         return report
     by_target = {}
